@@ -69,6 +69,10 @@ const MANIFEST_FILE_NAME: &str = "manifest.json";
 #[cfg(test)]
 mod tests;
 
+// contract-verification harnesses (compiled only by `cargo kani`)
+#[cfg(kani)]
+mod verif_kani;
+
 /// Secondary storage of RisingLight.
 pub struct SecondaryStorage {
     /// Catalog of the database
